@@ -1,26 +1,36 @@
-"""Turn `cli.py selftest mutants` logs (one per VERIF_SEED) into the markdown table of DESIGN §11.4.
-usage: mutant_table.py log_seed0 [log_seed1 ...]"""
+"""Turn `cli.py selftest mutants` logs into the markdown table of DESIGN §11.4.
+usage: mutant_table.py --full log [log ...] [--rerun log [log ...]]
+  --full : logs of complete runs (every change once); --rerun : logs of later re-runs of single changes (idle machine)"""
 import json, os, re, sys
 HERE = os.path.dirname(os.path.abspath(__file__))
 first = json.load(open(os.path.join(HERE, '..', 'seeded', 'first_try.json')))
+mode, logs = None, {'full': [], 'rerun': []}
+for a in sys.argv[1:]:
+    if a in ('--full', '--rerun'):
+        mode = a[2:]
+    else:
+        logs[mode or 'full'].append(a)
 rows = {}
-for i, path in enumerate(sys.argv[1:]):
-    for line in open(path):
-        m = re.match(r'\[selftest\] mutant (\S+)\s+(C\d+) (\S+)\s+([\d.]+)s\s+(.*)', line)
-        if m:
-            name, prop, st, dt, info = m.groups()
-            rows.setdefault(name, {'prop': prop, 'res': [], 'info': ''})
-            rows[name]['res'].append(st)
-            if st == 'caught' and not rows[name]['info']:
-                rows[name]['info'] = info
-print('| change | property | first try | now (per seed) | example of what the check reported |')
-print('|---|---|---|---|---|')
+for kind in ('full', 'rerun'):
+    for path in logs[kind]:
+        for line in open(path):
+            m = re.match(r'\[selftest\] mutant (\S+)\s+(C\d+) (\S+)\s+([\d.]+)s\s+(.*)', line)
+            if m:
+                name, prop, st, dt, info = m.groups()
+                r = rows.setdefault(name, {'prop': prop, 'full': [], 'rerun': [], 'info': ''})
+                r[kind].append(st)
+                if st == 'caught' and (not r['info'] or 'phases' in r['info']):
+                    r['info'] = info
+print('| change | property | first try | full run | re-run | example of what the check reported |')
+print('|---|---|---|---|---|---|')
 for name in sorted(rows, key=lambda n: (n.startswith('seeded/'), n)):
     r = rows[name]
     key = name.split('/')[-1]
     ft = first.get(key, ['-', ''])[0] if name.startswith('seeded/') else '-'
-    info = re.sub(r'\s+', ' ', r['info'])[:150].replace('|', '\\|')
-    print('| `%s` | %s | %s | %s | %s |' % (name, r['prop'], ft, ' / '.join(r['res']), info))
+    info = re.sub(r'\s+', ' ', r['info'])
+    info = re.sub(r"\[C20\] phases \(seconds since start\): \[.*?\]\s*", '', info)[:140].replace('|', '\\|')
+    print('| `%s` | %s | %s | %s | %s | %s |' % (name, r['prop'], ft, ' / '.join(r['full']) or 'not run', ' / '.join(r['rerun']), info))
 n = len(rows)
-c = sum(1 for r in rows.values() if all(x == 'caught' for x in r['res']))
-print('\n%d of %d changes caught on every seed tried.' % (c, n))
+c1 = sum(1 for r in rows.values() if r['full'] and all(x == 'caught' for x in r['full']))
+c2 = sum(1 for r in rows.values() if (r['full'] + r['rerun']) and (r['rerun'] or r['full'])[-1] == 'caught')
+print('\n%d changes; %d caught in the full run; %d caught counting the latest verdict per change.' % (n, c1, c2))
